@@ -490,14 +490,14 @@ Qed.
    evaluation is an ordinary call.  Created afterwards (late): it raises exactly when that evaluation
    succeeds and wants to be recorded; otherwise the fitness starts with an empty history. *)
 Lemma construct_early I (m : @model V) (L : @lik V) (lp : @lprior V) fl r (st : @state V) pbuf :
-  construct N I m L lp fl r false st pbuf = Some (fst (step N I m L lp fl r st (OCall pbuf))).
+  construct_via_call N I m L lp fl r false st pbuf = Some (fst (step N I m L lp fl r st (OCall pbuf))).
 Proof. reflexivity. Qed.
 
 Lemma construct_late_raises_iff I (m : @model V) (L : @lik V) (lp : @lprior V) fl r h pbuf :
-  construct N I m L lp fl r true (fresh h) pbuf = None <->
+  construct_via_call N I m L lp fl r true (fresh h) pbuf = None <->
   (fl_store fl = true /\ exists ll b, evaluate N m L (buf h pbuf) = EvOk ll b).
 Proof.
-  unfold construct. rewrite step_hist_call. simpl hist. simpl heap. simpl app.
+  unfold construct_via_call. rewrite step_hist_call. simpl hist. simpl heap. simpl app.
   destruct (evaluate N m L (buf h pbuf)) as [e| |ll b] eqn:Ev; simpl.
   - split; [discriminate | intros [_ (ll & b & H)]; discriminate].
   - split; [discriminate | intros [_ (ll & b & H)]; discriminate].
@@ -507,9 +507,25 @@ Proof.
 Qed.
 
 Lemma construct_late_otherwise I (m : @model V) (L : @lik V) (lp : @lprior V) fl r h pbuf st :
-  construct N I m L lp fl r true (fresh h) pbuf = Some st -> st = fresh h.
+  construct_via_call N I m L lp fl r true (fresh h) pbuf = Some st -> st = fresh h.
 Proof.
-  unfold construct. destruct (length _ =? length _)%nat; [|discriminate]. intro H; injection H as <-. reflexivity.
+  unfold construct_via_call. destruct (length _ =? length _)%nat; [|discriminate]. intro H; injection H as <-. reflexivity.
+Qed.
+
+(* current code: the sanity evaluation does not go through __call__ *)
+Lemma construct_direct_spec I (m : @model V) (L : @lik V) (lp : @lprior V) fl r late (st : @state V) pbuf :
+  ((exists ll b, evaluate N m L (buf (heap st) pbuf) = EvOk ll b) <->
+   construct N I m L lp fl r false late st pbuf = Some st) /\
+  (forall st', construct N I m L lp fl r false late st pbuf = Some st' -> st' = st).
+Proof.
+  unfold construct, construct_direct.
+  destruct (evaluate N m L (buf (heap st) pbuf)) as [e| |ll b]; split.
+  - split; [intros (ll & b & H); discriminate | discriminate].
+  - discriminate.
+  - split; [intros (ll & b & H); discriminate | discriminate].
+  - discriminate.
+  - split; [reflexivity | eauto].
+  - intros st' H. injection H as <-. reflexivity.
 Qed.
 
 (* all in one: what a successful / unsuccessful plain call returns *)
